@@ -15,7 +15,11 @@ Implementation functions driven (real code from $VERIF_REPO/src):
   volume.Volume.from_components / from_attributes and VolumeGeometry.with_array on arrays WITH channel dimensions
   (spatial_shape, channel_shape, center_position / center_indices, get_geometry, map_reference_to_indices with
   check_bounds), PixelToReference / PixelToPixel (constructor and for_images, rounded and not) on index arrays of
-  every integer dtype and several memory layouts.
+  every integer dtype and several memory layouts; the rounded outputs on EXACT ties (ReferenceToPixel, the helper,
+  PixelToPixel between pyramid levels through the constructor and for_images, VolumeGeometry.map_reference_to_indices
+  (round_output=True)), all at their default options; HISTORIES of one object of every transformer class and of
+  VolumeGeometry (fresh, and again after the caller edited in place what it was handed: the array returned by .affine,
+  results of calls, its own argument arrays).
 Model: coq/theories/C10_Model.v; theorems: C10_Props.v.
 """
 import itertools
@@ -55,12 +59,19 @@ MODELLED = ('spatial.py: get_normal_vector, create_rotation_matrix, create_affin
             '__call__ (kinds p2r_dtype, p2p_dtype, ds_pair_dtype: run_*_dt; the memory layout of the array is outside '
             'the model), Volume.from_components / from_attributes / VolumeGeometry.with_array on arrays with channel '
             'dimensions (kinds vol_*: vol_make, vol_from_components, vol_from_attributes, geom_with_array, '
-            'map_reference_to_indices(check_bounds=True)); identities_dtype is oracle-only.')
+            'map_reference_to_indices(check_bounds=True)); identities_dtype is oracle-only. Exact ties of the '
+            'rounded outputs (kinds r2p_tie, map_coord_tie, p2p_tie, ds_pair_tie: the existing run_r2p / run_map_coord / '
+            'run_p2p / run_for_images_dt on coordinates exactly half way between two pixel centres; kind routes: '
+            'run_round_routes = default PixelToPixel vs default ReferenceToPixel o PixelToReference vs the helper vs '
+            'VolumeGeometry.map_reference_to_indices(round_output=True)); histories of ONE transformer object (kind '
+            'history: run_history - the model is a value, so it states that no caller action changes the object; the '
+            'aliasing itself is outside the model); kind alias is oracle-only.')
 STRATA = ['rotation', 'affine_attr', 'inv_affine', 'p2r', 'i2r', 'r2p', 'r2i', 'p2p', 'i2i', 'coplanar',
           'map_pixel', 'map_coord', 'rot_po', 'closest', 'po_roundtrip', 'affine_comp', 'tam',
           'to_convention', 'geom_attr', 'geom_comp', 'geom_maps', 'geom_more', 'identities', 'for_image',
           'ds_info', 'ds_pair', 'ds_tile', 'malformed',
-          'p2r_dtype', 'p2p_dtype', 'ds_pair_dtype', 'identities_dtype', 'vol_comp', 'vol_attr', 'vol_with_array']
+          'p2r_dtype', 'p2p_dtype', 'ds_pair_dtype', 'identities_dtype', 'vol_comp', 'vol_attr', 'vol_with_array',
+          'r2p_tie', 'map_coord_tie', 'p2p_tie', 'ds_pair_tie', 'routes', 'history', 'alias']
 RULE = ('orientations: 24 signed axis pairs, Pythagorean rotations about an axis, dense rational rotations from '
         'integer quaternions, left- and right-handed column choice; positions dyadic; spacings dyadic and '
         'non-dyadic rationals, scalar and per-axis; all 8 pixel index conventions x slices_first x handedness; all 48 '
@@ -69,7 +80,14 @@ RULE = ('orientations: 24 signed axis pairs, Pythagorean rotations about an axis
         'of int8..int64 / uint8..uint64 (values at both ends of the dtype range, results negative or beyond the '
         'dtype), float16/32/64 and bool arrays (refused), C / Fortran / strided / transposed / reversed / read-only '
         'layouts; volumes with 0-2 channel dimensions (RGB, DICOM attribute, custom descriptors), spatial sizes '
-        '1..12 differing from the channel sizes, anchored by position or by centre, array dtype and layout varied. '
+        '1..12 differing from the channel sizes, anchored by position or by centre, array dtype and layout varied; '
+        'exact ties: reference coordinates m + 1/2 pixels for every parity and sign of m (columns, rows and slices), '
+        'pyramid levels with dyadic spacings (target 2x / 4x coarser, same orientation, rotated by 90 degrees or '
+        'flipped, origins an integer or half-integer number of source pixels apart; constructor and for_images of two '
+        'total pixel matrices), all three default roundings compared; histories: every transformer class (constructor '
+        'with list or numpy arguments, for_image / for_images, VolumeGeometry constructor / from_attributes) observed '
+        'fresh and again after the caller edited in place the array returned by .affine (*=, +=, ufunc out=, slice '
+        'assignment, fill), the result of the previous call, the arrays it handed to the constructor / the call. '
         'non-trivial = oblique or non-unit-spacing geometry, or a refused input; distinct by case hash')
 NOT_EXECUTED = []
 EXHAUSTIVE = {'quick': False, 'thorough': False}
@@ -355,6 +373,9 @@ def gen_cases(rng, tier):
     # ---- index arrays of every dtype / layout; volumes with channel dimensions (appended: earlier draws unchanged)
     cases += _dtype_cases(rng, N)
     cases += _vol_cases(rng, N)
+    # ---- exact ties of the rounded outputs; histories of one transformer object (appended as well)
+    cases += _tie_cases(rng, N)
+    cases += _history_cases(rng, N)
     return cases
 
 
@@ -1005,6 +1026,184 @@ def _vol_cases(rng, N):
 
 
 # ---------------------------------------------------------------------------
+# exact ties of the rounded outputs: coordinates exactly half way between two pixel centres
+# ---------------------------------------------------------------------------
+BASE_KIND = {'r2p_tie': 'r2p', 'map_coord_tie': 'map_coord', 'p2p_tie': 'p2p'}
+PYRAMID_RELS = ('pyr2', 'pyr4', 'pyr2_flip', 'pyr2_rot', 'halfshift')
+
+
+def _tie_ref_pts(rng, g, n, slices):
+    """reference points whose pixel index is m + 1/2 in the column, row (and slice) direction, for lower neighbours m
+    of both parities and signs; the other coordinates are integers or ties as well"""
+    out = []
+    for i in range(n):
+        m = rng.choice([-6, -5, -4, -3, -2, -1, 0, 1, 2, 3, 4, 5, 10, 11, 30, 31]) if i else rng.choice([0, 2, -2, 4, 10])
+        h = lambda: F(rng.randint(-6, 31)) + rng.choice([F(0), F(1, 2), F(1, 2), F(-1, 2)])      # noqa: E731
+        col, row = F(m) + F(1, 2), h()
+        if rng.random() < 0.3:
+            col, row = row, col
+        k = rng.choice([F(0), F(0), F(1, 2), F(-1, 2), F(3, 2), F(5, 2)]) if slices else F(0)
+        out.append(_S(_ref_of(g, col, row, k)))
+    return out
+
+
+def _pyramid_pair(rng, rel=None):
+    """two levels of a resolution pyramid on an exactly representable (axis-aligned, dyadic) plane: the target is
+    k times coarser, its origin a (half-)integer number of source pixels away"""
+    g = _geom(rng, 'axis', True)
+    rel = rel or rng.choice(PYRAMID_RELS)
+    o = [F(x) for x in g['ori']]
+    rv, cv = o[:3], o[3:]
+    k = 4 if rel == 'pyr4' else 1 if rel == 'halfshift' else 2
+    a, b = F(rng.randint(-4, 4)), F(rng.randint(-4, 4))
+    if rel == 'halfshift':                              # same resolution, grids half a pixel apart: every index ties
+        a, b = a + F(1, 2), b + rng.choice([F(1, 2), F(0)])
+    elif rng.random() < 0.3:
+        a = b = F(0)
+    g2 = dict(g, pos=_S(_ref_of(g, a, b)), sp=_S([F(g['sp'][0]) * k, F(g['sp'][1]) * k]))
+    if rel == 'pyr2_flip':
+        g2['ori'], g2['sp'] = _S(cv + rv), [g2['sp'][1], g2['sp'][0]]
+    elif rel == 'pyr2_rot':
+        g2['ori'], g2['sp'] = _S(cv + [-x for x in rv]), [g2['sp'][1], g2['sp'][0]]
+    pts = _pts_int(rng, rng.randint(1, 3), -8, 40)
+    A, B = int(a - (a % 1)), int(b - (b % 1))
+    e = 1 if rel == 'halfshift' else k // 2
+    # one point chosen to tie above an EVEN target index (where half-to-even and half-up differ) ...
+    pts.append([A + k * rng.choice([-4, -2, 0, 2, 6]) + e, B + k * rng.randint(-3, 9) + rng.choice([0, e])])
+    # ... and one above an odd one
+    pts.append([A + k * rng.choice([-3, -1, 1, 5]) + e, rng.randint(-8, 40)])
+    return g, g2, rel, pts
+
+
+def _tie_cases(rng, N):
+    out = []
+    for _ in range(12 * N):                      # ReferenceToPixel on exact ties (rounded is the default)
+        g = _geom(rng, 'axis', True)
+        drop = rng.random() < 0.35
+        out.append({'kind': 'r2p_tie', 'g': g, 'round': rng.random() < 0.9, 'drop': drop, 'w': 3, 'mode': 'tie',
+                    'pts': _tie_ref_pts(rng, g, rng.randint(1, 4), not drop)})
+    for _ in range(5 * N):                       # the single-point helper on exact ties
+        g = _geom(rng, 'axis', True)
+        out.append({'kind': 'map_coord_tie', 'g': g, 'mode': 'tie', 'x': _tie_ref_pts(rng, g, 1, True)[0]})
+    for _ in range(12 * N):                      # PixelToPixel between pyramid levels (round_output left to its default)
+        g, g2, rel, pts = _pyramid_pair(rng)
+        out.append({'kind': 'p2p_tie', 'g': g, 'g_to': g2, 'rel': rel, 'w': 2, 'isint': True,
+                    'round': rng.random() < 0.9, 'default': rng.random() < 0.6, 'pts': pts})
+    for _ in range(6 * N):                       # ... through for_images: total pixel matrices of two pyramid levels
+        g, g2, rel, pts = _pyramid_pair(rng, rng.choice(['pyr2', 'pyr2', 'pyr4', 'halfshift']))
+        z2 = F(g2['pos'][2]) - F(g['pos'][2])        # slide images: the origin of the source lies at z = 0
+        g['pos'][2] = '0'
+        g2 = dict(g2, pos=g2['pos'][:2] + [str(z2)])
+        a = _ds_wsi(rng, g, rng.random() < 0.5, None)
+        b = _ds_wsi(rng, g2, rng.random() < 0.5, str(z2) if z2 != 0 else rng.choice([None, '0']))
+        a['focal'] = b['focal'] = 1
+        out.append({'kind': 'ds_pair_tie', 'a': a, 'b': b, 'g': g, 'g_to': g2, 'rel': rel,
+                    'round': rng.random() < 0.9, 'pts': pts})
+    for _ in range(16 * N):                      # every rounded route from a source pixel into the target image
+        if rng.random() < 0.6:
+            g, g2, rel, pts = _pyramid_pair(rng)
+        else:
+            g, g2, rel = _pair_sub(rng)
+            pts = _pts_int(rng, rng.randint(1, 4))
+        out.append({'kind': 'routes', 'g': g, 'g_to': g2, 'rel': rel, 'pts': pts,
+                    'shape': [rng.randint(1, 9), rng.randint(1, 9)]})
+    return out
+
+
+# ---------------------------------------------------------------------------
+# histories of ONE transformer object; aliasing between its state and arrays the caller can reach
+# ---------------------------------------------------------------------------
+HISTORY_CLASSES = ('p2r', 'r2p', 'i2r', 'r2i', 'p2p', 'i2i', 'geom')
+EDIT_HOW = ('inplace_ops', 'ufunc_out', 'setitem', 'flat')
+
+
+def _history_ops(rng):
+    ops = []
+    for _ in range(rng.randint(2, 4)):
+        m = rng.random()
+        if m < 0.55:
+            ops.append({'op': 'affine_edit', 'k': str(rng.choice([F(2), F(-1), F(1, 2), F(3), F(0)])),
+                        't': _S([_dy(rng, -40, 40) for _ in range(3)]), 'how': rng.choice(EDIT_HOW)})
+        else:
+            ops.append({'op': rng.choice(['output_edit', 'input_edit', 'call'])})
+    if not any(o['op'] == 'affine_edit' for o in ops):
+        ops[rng.randrange(len(ops))] = {'op': 'affine_edit', 'k': '2', 't': ['25/2', '-3', '7'], 'how': 'inplace_ops'}
+    return ops
+
+
+def _history_case(rng, cls, via):
+    c = {'kind': 'history', 'cls': cls, 'via': via, 'ops': _history_ops(rng), 'np_args': rng.random() < 0.5}
+    if via == 'ctor' and cls == 'geom' and not any(o['op'] == 'input_edit' for o in c['ops']):
+        c['ops'].insert(rng.randrange(len(c['ops']) + 1), {'op': 'input_edit'})      # the matrix handed to VolumeGeometry(...)
+    if via == 'ds':
+        g = _geom(rng)
+        g['pos'][2] = '0'
+        src = rng.choice(['single', 'mf', 'tiled_full', 'tiled', 'tpm']) if cls not in ('p2p', 'i2i') else 'tiled_pair'
+        if src == 'single':
+            g = _geom(rng)
+            d, frame, tpm = _ds_single(rng, g), None, False
+        elif src == 'mf':
+            g = _geom(rng)
+            n = rng.randint(1, 3)
+            d, tpm = _ds_multiframe(rng, g, n), False
+            frame = rng.randint(1, n)
+        else:
+            d = _ds_wsi(rng, g, src != 'tiled' and rng.random() < 0.7, rng.choice([None, None, str(_dy(rng, -40, 40))]))
+            d['focal'] = 1
+            frame, tpm = (None, True) if src == 'tpm' else (rng.randint(1, _ds_nframes(d)), False)
+        c.update(ds=d, frame=frame, tpm=tpm, src=src)
+    elif cls in ('p2p', 'i2i'):
+        g, g2, rel = _pair_sub(rng)
+        c.update(g_to=g2, rel=rel)
+    else:
+        g = _geom(rng)
+    c['g'] = g
+    if cls in ('p2r', 'p2p'):
+        c['pts'] = _pts_int(rng, rng.randint(1, 3), 0, 12)
+    elif cls in ('i2r', 'i2i'):
+        c['pts'] = [_S([F(rng.randint(0, 100), 8), F(rng.randint(0, 100), 8)]) for _ in range(rng.randint(1, 3))]
+    elif cls == 'geom':
+        c['pts'] = [_S([_dy(rng, -40, 40) for _ in range(3)]) for _ in range(rng.randint(1, 3))]
+        c['shape'] = [rng.randint(1, 9) for _ in range(3)]
+    else:
+        c['mode'] = rng.choice(['int', 'sub'])
+        c['pts'] = None                 # reference points: filled in below, they depend on the plane
+    if cls == 'r2p':
+        c.update(round=rng.random() < 0.6, drop=rng.random() < 0.4)
+    if cls == 'r2i':
+        c['drop'] = rng.random() < 0.4
+    if cls == 'p2p':
+        c['round'] = rng.random() < 0.6
+    if c.get('pts') is None:
+        gp = g
+        if via == 'ds':                 # the plane the dataset describes for that frame
+            pos, _, _ = _ds_expected(c, c['ds'], c['frame'], c['tpm'])
+            dd = c['ds']
+            pms = [fg['pm'] for fg in [dd['shared']] + (dd['perframe'] or []) if fg and fg['pm'] is not None]
+            ss = (dd['root'] or {}).get('ss') if dd['sop'] == 'ct' else pms[0]['ss']
+            gp = dict(g, pos=_S(pos), ss=ss or '1')
+        c['gp'] = gp
+        c['pts'] = _ref_pts(rng, gp, rng.randint(1, 3), c['mode'])
+    return c
+
+
+def _history_cases(rng, N):
+    out = []
+    for cls in HISTORY_CLASSES:
+        for _ in range(3 * N):
+            out.append(_history_case(rng, cls, rng.choice(['ctor', 'attr']) if cls == 'geom' else 'ctor'))
+        if cls != 'geom':
+            for _ in range(2 * N):
+                out.append(_history_case(rng, cls, 'ds'))
+    for _ in range(10 * N):                      # oracle only: what else a caller can reach
+        g, g2, rel = _pair_sub(rng)
+        out.append({'kind': 'alias', 'g': g, 'g_to': g2, 'rel': rel, 'pts': _pts_int(rng, 2, 0, 12),
+                    'shape': [rng.randint(1, 9) for _ in range(3)], 'how': rng.choice(EDIT_HOW),
+                    'po': rng.choice(ALL48)})
+    return out
+
+
+# ---------------------------------------------------------------------------
 # implementation runner
 # ---------------------------------------------------------------------------
 def _f(x):
@@ -1200,6 +1399,22 @@ def run_impl(c):
         return _run_identities_dtype(c)
     if k in ('vol_comp', 'vol_attr', 'vol_with_array'):
         return _run_vol(c)
+    if k in ('r2p_tie', 'map_coord_tie'):
+        return run_impl(dict(c, kind=BASE_KIND[k]))
+    if k == 'p2p_tie':
+        pos, ori, sp = map(_pyarg, _args(c))
+        to = list(map(_pyarg, _args(c, '_to')))
+        kw = {} if (c['default'] and c['round']) else {'round_output': c['round']}      # True is the default
+        return _obs_call(lambda: S.PixelToPixelTransformer(pos, ori, sp, *to, **kw),
+                         lambda t: t(_np_pts(c['pts'], 2, True)))
+    if k == 'ds_pair_tie':
+        return _run_ds_pair_dtype(dict(c, fa=None, fb=None, ta=True, tb=True, dt='int64', layout='C'))
+    if k == 'routes':
+        return _run_routes(c)
+    if k == 'history':
+        return _run_history(c)
+    if k == 'alias':
+        return _run_alias(c)
     raise ValueError(k)
 
 
@@ -1559,6 +1774,239 @@ def _run_identities_dtype(c):
     return out
 
 
+def _run_routes(c):
+    """every rounded way from a pixel of the source image to the pixel of the coplanar target image, all options
+    left to their defaults"""
+    import numpy as np
+    from highdicom import spatial as S
+    from highdicom.volume import VolumeGeometry
+    g, g2 = c['g'], c['g_to']
+    a = (_fl(g['pos']), _fl(g['ori']), _fl(g['sp']))
+    b = (_fl(g2['pos']), _fl(g2['ori']), _fl(g2['sp']))
+    idx = np.array(c['pts'], dtype=np.int64).reshape(len(c['pts']), 2)
+    ref = S.PixelToReferenceTransformer(*a)(idx)
+    G = VolumeGeometry.from_attributes(image_position=b[0], image_orientation=b[1], rows=c['shape'][0],
+                                       columns=c['shape'][1], pixel_spacing=b[2], spacing_between_slices=1.0,
+                                       number_of_frames=1, coordinate_system='PATIENT')
+    return [S.PixelToPixelTransformer(*a, *b)(idx).tolist(),
+            S.ReferenceToPixelTransformer(*b)(ref).tolist(),
+            S.ReferenceToPixelTransformer(*b, round_output=False)(ref).tolist(),
+            S.ReferenceToPixelTransformer(*b, drop_slice_index=True)(ref).tolist(),
+            [[list(S.map_coordinate_into_pixel_matrix(x, *b))] for x in ref.tolist()],
+            [G.map_reference_to_indices(ref, round_output=True).tolist(), G.map_reference_to_indices(ref).tolist()]]
+
+
+def _edit_in_place(a, k, t, how):
+    """a[:3, :3] *= k; a[:3, 3] += t  - on the array itself, in four spellings"""
+    import numpy as np
+    t = np.array(t, dtype=float)
+    if how == 'inplace_ops':
+        a[:3, :3] *= k
+        a[:3, 3] += t
+    elif how == 'ufunc_out':
+        np.multiply(a[:3, :3], k, out=a[:3, :3])
+        np.add(a[:3, 3], t, out=a[:3, 3])
+    elif how == 'setitem':
+        a[:3, :3] = a[:3, :3] * k
+        a[:3, 3] = a[:3, 3] + t
+    else:
+        new = a.copy()
+        new[:3, :3] *= k
+        new[:3, 3] += t
+        a.flat[:] = new.ravel()
+
+
+def _history_build(c, keep):
+    """(transformer, call) of a history case; numpy arrays handed to the constructor are remembered in keep"""
+    import numpy as np
+    from highdicom import spatial as S
+    from highdicom.volume import VolumeGeometry
+    cls, g = c['cls'], c['g']
+
+    def A(xs):
+        # caller-owned, mutable argument objects: lists, or numpy arrays where the class takes them (the four
+        # classes built on _create_inv_affine_matrix_from_attributes answer TypeError to an ndarray)
+        a = np.array(_fl(xs), dtype=float) if (c['np_args'] and cls in ('p2r', 'i2r', 'geom')) else _fl(xs)
+        keep.append(a)
+        return a
+    isint = cls in ('p2r', 'p2p')
+    w = 2 if cls in ('p2r', 'p2p', 'i2r', 'i2i') else 3
+
+    def inp():
+        x = _np_pts(c['pts'], w, isint)
+        keep.append(x)
+        return x
+    call = lambda t: t(inp())      # noqa: E731
+    if c['via'] == 'ds':
+        ds = _ds_build(c['ds'])
+        kw = {'frame_number': c['frame'], 'for_total_pixel_matrix': c['tpm']}
+        pk = {'frame_number_from': c['frame'], 'for_total_pixel_matrix_to': True}
+        t = {'p2r': lambda: S.PixelToReferenceTransformer.for_image(ds, **kw),
+             'i2r': lambda: S.ImageToReferenceTransformer.for_image(ds, **kw),
+             'r2p': lambda: S.ReferenceToPixelTransformer.for_image(ds, round_output=c['round'],
+                                                                    drop_slice_index=c['drop'], **kw),
+             'r2i': lambda: S.ReferenceToImageTransformer.for_image(ds, drop_slice_coord=c['drop'], **kw),
+             'p2p': lambda: S.PixelToPixelTransformer.for_images(ds, ds, round_output=c['round'], **pk),
+             'i2i': lambda: S.ImageToImageTransformer.for_images(ds, ds, **pk)}[cls]()
+        return t, call
+    a = (A(g['pos']), A(g['ori']), A(g['sp']))
+    ss = _f(g['ss'])
+    if cls in ('p2p', 'i2i'):
+        g2 = c['g_to']
+        b = (A(g2['pos']), A(g2['ori']), A(g2['sp']))
+    if cls == 'geom':
+        nf, rows, cols = c['shape']
+        if c['via'] == 'attr':
+            t = VolumeGeometry.from_attributes(image_position=a[0], image_orientation=a[1], rows=rows, columns=cols,
+                                               pixel_spacing=a[2], spacing_between_slices=ss, number_of_frames=nf,
+                                               coordinate_system='PATIENT')
+        else:
+            M = S.create_affine_matrix_from_attributes(a[0], a[1], a[2], ss, index_convention='DR', slices_first=True)
+            keep.append(M)
+            t = VolumeGeometry(M, (nf, rows, cols), coordinate_system='PATIENT')
+
+        def call(t):      # noqa: F811
+            return [t.map_indices_to_reference(inp()), t.map_reference_to_indices(inp())]
+        return t, call
+    t = {'p2r': lambda: S.PixelToReferenceTransformer(*a),
+         'i2r': lambda: S.ImageToReferenceTransformer(*a),
+         'r2p': lambda: S.ReferenceToPixelTransformer(*a, ss, round_output=c['round'], drop_slice_index=c['drop']),
+         'r2i': lambda: S.ReferenceToImageTransformer(*a, ss, drop_slice_coord=c['drop']),
+         'p2p': lambda: S.PixelToPixelTransformer(*a, *b, round_output=c['round']),
+         'i2i': lambda: S.ImageToImageTransformer(*a, *b)}[cls]()
+    return t, call
+
+
+def _run_history(c):
+    """[[affine, call result] of the fresh object, [[the caller's edited array | None, [affine, call result]] per step]]"""
+    import numpy as np
+    keep, outs = [], []
+
+    def tolist(r):
+        return [x.tolist() for x in r] if isinstance(r, list) else r.tolist()
+
+    def build():
+        return _history_build(c, keep)
+    bt = _catch2(build)
+    if isinstance(bt, Err):
+        return bt
+    t, call = bt
+
+    def obs():
+        r = catch(lambda: call(t))
+        if not isinstance(r, Err):
+            outs.append(r)
+            r = tolist(r)
+        return [t.affine.tolist(), r]
+    first = obs()
+    steps = []
+    for op in c['ops']:
+        mine = None
+        if op['op'] == 'affine_edit':
+            a = t.affine if (c['cls'] != 'geom' or op['how'] != 'flat') else t.get_affine(None)
+            _edit_in_place(a, _f(op['k']), _fl(op['t']), op['how'])
+            mine = a.tolist()
+        elif op['op'] == 'output_edit':
+            for r in outs:
+                for x in (r if isinstance(r, list) else [r]):
+                    if x.flags.writeable:
+                        x[...] = 7
+        elif op['op'] == 'input_edit':
+            for x in keep:
+                if isinstance(x, list):
+                    x[:] = [3 * v + 1 for v in x]
+                elif x.flags.writeable:
+                    x *= 3
+                    x += 1
+        steps.append([mine, obs()])
+    return [first, steps]
+
+
+def _run_alias(c):
+    """what else a caller can reach (oracle only): sibling objects, the accessors of a VolumeGeometry, the matrices
+    the module-level functions return, the arrays handed to a call"""
+    import numpy as np
+    from highdicom import spatial as S
+    from highdicom.volume import VolumeGeometry
+    g, g2 = c['g'], c['g_to']
+    k, tt, how = 2.0, [12.5, -3.0, 7.0], c['how']
+    out = {}
+    # 1. two objects built from the very same argument objects
+    args = (np.array(_fl(g['pos'])), np.array(_fl(g['ori'])), np.array(_fl(g['sp'])))
+    largs = (_fl(g['pos']), _fl(g['ori']), _fl(g['sp']))          # ndarray arguments are a TypeError for the inverse classes
+    args2 = (_fl(g2['pos']), _fl(g2['ori']), _fl(g2['sp']))
+    idx = np.array(c['pts'], dtype=np.int64)
+    sib = {}
+    for name, mk, x in (('P2R', lambda: S.PixelToReferenceTransformer(*args), idx),
+                        ('I2R', lambda: S.ImageToReferenceTransformer(*args), idx + 0.5),
+                        ('R2P', lambda: S.ReferenceToPixelTransformer(*largs), None),
+                        ('R2I', lambda: S.ReferenceToImageTransformer(*largs), None),
+                        ('P2P', lambda: S.PixelToPixelTransformer(*largs, *args2), idx),
+                        ('I2I', lambda: S.ImageToImageTransformer(*largs, *args2), idx + 0.5)):
+        t1, t2 = mk(), mk()
+        if x is None:
+            x = S.PixelToReferenceTransformer(*args)(idx)
+        x0 = x.copy()
+        before = [t2.affine.tolist(), t2(x).tolist()]
+        r1 = t1(x)
+        _edit_in_place(t1.affine, k, tt, how)
+        r1[...] = 7                                   # the result of a call is the caller's
+        sib[name] = [before, [t2.affine.tolist(), t2(x).tolist()], bool((x == x0).all()),
+                     [t1.affine.tolist(), t1(x).tolist()]]
+    out['siblings'] = sib
+    out['args_untouched'] = bool(all((p == np.array(_fl(q))).all() for p, q in zip(args, (g['pos'], g['ori'], g['sp']))) and
+                                 list(largs) == [_fl(g['pos']), _fl(g['ori']), _fl(g['sp'])] and
+                                 list(args2) == [_fl(g2['pos']), _fl(g2['ori']), _fl(g2['sp'])])
+    # 2. every array a VolumeGeometry hands out
+    nf, rows, cols = c['shape']
+    G = VolumeGeometry.from_attributes(image_position=args[0], image_orientation=args[1], rows=rows, columns=cols,
+                                       pixel_spacing=args[2], spacing_between_slices=_f(g['ss']), number_of_frames=nf,
+                                       coordinate_system='PATIENT')
+
+    def gobs():
+        return [G.affine.tolist(), G.inverse_affine.tolist(), G.direction.tolist(), list(G.position), list(G.spacing),
+                list(G.direction_cosines), [v.tolist() for v in G.spacing_vectors()],
+                [v.tolist() for v in G.unit_vectors()], G.get_affine(c['po']).tolist()]
+    gfirst = gobs()
+    handed = [('affine', G.affine), ('get_affine(None)', G.get_affine(None)), ('get_affine(po)', G.get_affine(c['po'])),
+              ('inverse_affine', G.inverse_affine), ('direction', G.direction)] + \
+        [(f'spacing_vectors()[{i}]', v) for i, v in enumerate(G.spacing_vectors())] + \
+        [(f'unit_vectors()[{i}]', v) for i, v in enumerate(G.unit_vectors())]
+    glater = []
+    for name, arr in handed:
+        if arr.ndim == 2 and arr.shape == (4, 4):
+            _edit_in_place(arr, k, tt, how)
+        else:
+            arr *= k
+            arr += 1.0
+        glater.append([name, gobs()])
+    out['geom'] = [gfirst, glater]
+    # 2b. the matrix handed to the constructor stays the caller's
+    M = S.create_affine_matrix_from_attributes(*args, _f(g['ss']), index_convention='DR', slices_first=True)
+    G2 = VolumeGeometry(M, (nf, rows, cols), coordinate_system='PATIENT')
+    m0, a0 = M.tolist(), G2.affine.tolist()
+    _edit_in_place(M, k, tt, how)
+    out['ctor_matrix'] = [m0, a0, G2.affine.tolist(), G2.map_indices_to_reference(np.array([[1.0, 2.0, 3.0]])).tolist()]
+    # 3. the matrices returned by the module-level functions are fresh on every call
+    fns = {'create_affine_matrix_from_attributes': lambda: S.create_affine_matrix_from_attributes(*args, _f(g['ss'])),
+           '_create_inv_affine_matrix_from_attributes': lambda: S._create_inv_affine_matrix_from_attributes(*largs, _f(g['ss'])),
+           'create_rotation_matrix': lambda: S.create_rotation_matrix(args[1], pixel_spacing=args[2]),
+           'rotation_for_patient_orientation': lambda: S.rotation_for_patient_orientation(c['po'], 1.5),
+           'create_affine_matrix_from_components': lambda: S.create_affine_matrix_from_components(
+               spacing=args[2].tolist() + [1.0], position=args[0], patient_orientation=c['po']),
+           'get_normal_vector': lambda: S.get_normal_vector(args[1])}
+    fresh = {}
+    for name, f in fns.items():
+        m = f()
+        first = m.tolist()
+        m *= k
+        m += 1.0
+        fresh[name] = [first, f().tolist()]
+    out['functions'] = fresh
+    out['args_untouched2'] = bool(all((p == np.array(_fl(q))).all() for p, q in zip(args, (g['pos'], g['ori'], g['sp']))))
+    return out
+
+
 def _vol_channel_dict(c):
     from highdicom.volume import ChannelDescriptor, RGB_COLOR_CHANNEL_DESCRIPTOR
     ch = {}
@@ -1870,6 +2318,19 @@ def coq_term(c):
         if k == 'vol_comp':
             return f"(run_vol_comp {sh} {ch} {comp})"
         return f"(run_vol_with_array {zl(c['shape'])} {sh} {ch} {comp})"
+    if k in BASE_KIND:
+        return coq_term(dict(c, kind=BASE_KIND[k]))
+    if k == 'ds_pair_tie':
+        return (f"(run_for_images_dt {_ds_term(c['a'])} {_ds_term(c['b'])} None None true true {_b(c['round'])} "
+                f"(DT KSigned 64) {_qll(c['pts'])})")
+    if k == 'routes':
+        a = ' '.join(_arg(x) for x in _args(c))
+        b = ' '.join(_arg(x) for x in _args(c, '_to'))
+        return f"(run_round_routes {a} {b} {zlit(c['shape'][0])} {zlit(c['shape'][1])} {_qll(c['pts'])})"
+    if k == 'history':
+        return _history_term(c)
+    if k == 'alias':
+        return None                      # aliasing between objects / accessor arrays: outside the model, oracle only
     g = c.get('g')
     if k == 'rotation':
         return (f"(VL [run_rotation {ql(g['ori'])} {_s(c['conv'])} {_b(c['sf'])} {_s(c['hand'])} {_arg(c['sp'])} "
@@ -1925,6 +2386,41 @@ def coq_term(c):
     if k == 'to_convention':
         return f"(run_to_convention {ql(c['A'])} {zl(c['shape'])} {_s(c['from'])} {_s(c['to'])})"
     raise ValueError(k)
+
+
+def _history_term(c):
+    cls, g = c['cls'], c['g']
+    pts = _qll(c['pts'])
+    call = {'p2r': f'(hcall_p2r {pts})', 'i2r': f'(hcall_i2r {pts})',
+            'r2p': f"(hcall_r2p {_b(c.get('round', True))} {_b(c.get('drop', False))} {pts})",
+            'r2i': f"(hcall_r2i {_b(c.get('drop', False))} {pts})",
+            'p2p': f"(hcall_p2p {_b(c.get('round', True))} {pts})", 'i2i': f'(hcall_i2i {pts})',
+            'geom': f'(hcall_geom {pts})'}[cls]
+    if c['via'] == 'ds':
+        d = _ds_term(c['ds'])
+        if cls in ('p2p', 'i2i'):
+            mk = f"(for_images_{cls} {d} {d} {_oz(c['frame'])} None false true)"
+        else:
+            mk = f"(for_image_{cls} {d} {_oz(c['frame'])} {_b(c['tpm'])})"
+    else:
+        a = ' '.join(_arg(x) for x in _args(c))
+        ss = qlit(F(g['ss']))
+        if cls in ('p2p', 'i2i'):
+            mk = f"({cls}_make {a} {' '.join(_arg(x) for x in _args(c, '_to'))})"
+        elif cls in ('r2p', 'r2i'):
+            mk = f'({cls}_make {a} {ss})'
+        elif cls == 'geom':
+            nf, rows, cols = c['shape']
+            mk = f'(geom_aff {a} {ss} {nf} {rows} {cols})'
+        else:
+            mk = f'({cls}_make {a})'
+    ops = []
+    for op in c['ops']:
+        if op['op'] == 'affine_edit':
+            ops.append(f"HAffineEdit {qlit(F(op['k']))} (V3 {' '.join(qlit(F(x)) for x in op['t'])})")
+        else:
+            ops.append({'output_edit': 'HOutputEdit', 'input_edit': 'HInputEdit', 'call': 'HCall'}[op['op']])
+    return f"(run_history {mk} {call} [{'; '.join(ops)}])"
 
 
 def _malformed_term(c):
@@ -2487,7 +2983,166 @@ def oracle(c, out):
         return _oracle_identities_dtype(c, out)
     if k in ('vol_comp', 'vol_attr', 'vol_with_array'):
         return _oracle_vol(c, out)
+    if k in BASE_KIND:
+        m = oracle(dict(c, kind=BASE_KIND[k]), out)
+        return None if m is None else f'exact tie ({c.get("rel", "half-integer index")}): {m}'
+    if k == 'ds_pair_tie':
+        return _oracle_ds_pair_tie(c, out)
+    if k == 'routes':
+        return _oracle_routes(c, out)
+    if k == 'history':
+        return _oracle_history(c, out)
+    if k == 'alias':
+        return _oracle_alias(c, out)
     return f'unknown kind {k}'
+
+
+def _exact_target(c):
+    """exact (column, row, slice) index in the target image of every source pixel of the case"""
+    return [_proj(c['g_to'], _ref_of(c['g'], F(p[0]), F(p[1])), F(1)) for p in c['pts']]
+
+
+def _oracle_ds_pair_tie(c, out):
+    if _is_err(out):
+        return f'{c["rel"]}: total pixel matrices of two pyramid levels refused: {out}'
+    q = [v[:2] for v in _exact_target(c)]
+    if c['round']:
+        want = [[round(v) for v in p] for p in q]                 # Fraction.__round__: half to even
+        if out[1] != want:
+            return (f'{c["rel"]}: P2P.for_images (total pixel matrix -> total pixel matrix) of {c["pts"]} = {out[1]}, '
+                    f'expected {want} (exact {[[str(v) for v in p] for p in q]}, ties to even)')
+        return None
+    return None if _allclose(out[1], q, 1e3) else f'{c["rel"]}: P2P.for_images = {out[1]}, expected {q}'
+
+
+def _oracle_routes(c, out):
+    p2p, via, via_f, via_drop, helper, (geo, geo_f) = out
+    q = _exact_target(c)
+    want = [[round(v) for v in p] for p in q]                     # half to even, from the exact rational position
+    exact = [[str(v) for v in p] for p in q]
+    if not _allclose(via_f, q, 1e3):
+        return f'R2P_to(round_output=False)(P2R_from(p)) = {via_f}, expected {exact}'
+    if via != want:
+        return (f'R2P_to(P2R_from(p)) (rounded by default) = {via}, but the exact position {exact} rounds (half to '
+                f'even, as np.around does and as PixelToPixel / VolumeGeometry do) to {want}')
+    if p2p != [w[:2] for w in want]:
+        return f'PixelToPixel(p) (rounded by default) = {p2p}, expected {[w[:2] for w in want]} (exact {exact})'
+    if p2p != [v[:2] for v in via]:
+        return f'PixelToPixel(p) = {p2p} differs from going through the frame of reference {via} for p = {c["pts"]}'
+    if via_drop != p2p:
+        return f'R2P_to(drop_slice_index=True) = {via_drop}, without dropping {via}'
+    if helper != [[w] for w in want]:
+        return f'map_coordinate_into_pixel_matrix = {helper}, batch transformer {via}'
+    gw = [[round(-p[2]), round(p[1]), round(p[0])] for p in q]
+    if geo != gw:
+        return (f'VolumeGeometry.map_reference_to_indices(round_output=True) = {geo} (slice, row, column) but '
+                f'ReferenceToPixel of the same plane answers {via} (column, row, slice)')
+    if not _allclose(geo_f, [[-p[2], p[1], p[0]] for p in q], 1e3):
+        return f'VolumeGeometry.map_reference_to_indices = {geo_f}, expected {exact} reversed'
+    return None
+
+
+def _edited(A, op):
+    k, t = float(F(op['k'])), [float(F(x)) for x in op['t']]
+    return [[A[i][j] * k for j in range(3)] + [A[i][3] + t[i]] for i in range(3)] + [list(A[3])]
+
+
+def _oracle_history(c, out):
+    cls = c['cls']
+    name = {'p2r': 'PixelToReferenceTransformer', 'r2p': 'ReferenceToPixelTransformer',
+            'i2r': 'ImageToReferenceTransformer', 'r2i': 'ReferenceToImageTransformer',
+            'p2p': 'PixelToPixelTransformer', 'i2i': 'ImageToImageTransformer', 'geom': 'VolumeGeometry'}[cls]
+    if c['via'] == 'ds':
+        name += '.for_images' if cls in ('p2p', 'i2i') else '.for_image'
+    if _is_err(out):
+        return f'{name}: valid geometry refused: {out}'
+    first, steps = out
+    # 1. the fresh object is right (first principles)
+    m = _oracle_history_first(c, first)
+    if m:
+        return f'{name} (fresh): {m}'
+    # 2. nothing the caller does with the arrays it was handed changes the object
+    done = []
+    for op, (mine, obs) in zip(c['ops'], steps):
+        what = {'affine_edit': f'editing in place ({op.get("how")}) the array returned by .affine',
+                'output_edit': 'overwriting the result of the previous call',
+                'input_edit': 'overwriting the arrays handed to the constructor / the previous call',
+                'call': 'another call'}[op['op']]
+        done.append(what)
+        if op['op'] == 'affine_edit' and not _allclose(mine, _edited(first[0], op), 1e3):
+            return f'{name}: the array returned by .affine, edited by the caller, is {mine}; the matrix was {first[0]}'
+        if obs[0] != first[0]:
+            return (f'{name}: after {what} the object reports affine {obs[0]} instead of {first[0]} - the caller '
+                    f'was handed the internal matrix, not a copy (history: {done})')
+        if obs[1] != first[1]:
+            return (f'{name}: after {what} the same input {c["pts"]} is mapped to {obs[1]} instead of {first[1]} '
+                    f'(history: {done})')
+    return None
+
+
+def _oracle_history_first(c, first):
+    cls, g = c['cls'], c['g']
+    aff, res = first
+    if c['via'] == 'ds':
+        pos, ori, sp = _ds_expected(c, c['ds'], c['frame'], c['tpm'])
+        d = c['ds']
+        if d['sop'] == 'ct':
+            ss = d['root']['ss']
+        else:
+            pms = [fg['pm'] for fg in [d['shared']] + (d['perframe'] or []) if fg and fg['pm'] is not None]
+            ss = pms[0]['ss']
+        g = dict(g, pos=_S(pos), ss=ss or '1')
+        if cls in ('p2p', 'i2i'):
+            _, _, C0, R0 = _ds_tile_of(d, c['frame'])
+            if _is_err(res):
+                return f'refused: {res}'
+            h = F(0)
+            want = [[F(p[0]) + C0, F(p[1]) + R0] for p in c['pts']]
+            if cls == 'p2p' and c['round']:
+                return None if res == [[int(v) for v in w] for w in want] else f'frame -> total pixel matrix {res}, expected {want}'
+            return None if _allclose(res, want, 1e3) else f'frame -> total pixel matrix {res}, expected {want}'
+    if cls == 'geom':
+        pos, rv, cv, n, sr, sc, ss = _frame(g)
+        cols = [[-x * ss for x in n], [x * sr for x in cv], [x * sc for x in rv]]
+        if not _allclose(aff, _affine_rows(cols, pos), 1e3):
+            return f'affine {aff}, expected {_affine_rows(cols, pos)}'
+        return oracle({'kind': 'geom_maps', 'g': g, 'pts': c['pts']}, res)
+    base = {'kind': cls, 'g': g, 'pts': c['pts'], 'w': 2 if cls in ('p2r', 'i2r', 'p2p', 'i2i') else 3,
+            'round': c.get('round', True), 'drop': c.get('drop', False), 'isint': True,
+            'g_to': c.get('g_to'), 'rel': c.get('rel')}
+    return oracle(base, [aff, res])
+
+
+def _oracle_alias(c, o):
+    for name, (before, after, untouched, own) in o['siblings'].items():
+        if before != after:
+            return (f'{name}: a second object built from the same arguments changed ({before} -> {after}) when the array '
+                    f'returned by the first object\'s .affine and the result of its call were edited in place')
+        if not untouched:
+            return f'{name}: the call modified the caller\'s input array'
+        if own != before:
+            return (f'{name}: after the caller edited the array returned by .affine / the result of a call, the object '
+                    f'answers {own} instead of {before}')
+    if not (o['args_untouched'] and o['args_untouched2']):
+        return 'the numpy arrays passed as image_position / image_orientation / pixel_spacing were modified'
+    gfirst, glater = o['geom']
+    for name, later in glater:
+        if later != gfirst:
+            i = next(j for j, (x, y) in enumerate(zip(gfirst, later)) if x != y)
+            field = ['affine', 'inverse_affine', 'direction', 'position', 'spacing', 'direction_cosines',
+                     'spacing_vectors()', 'unit_vectors()', 'get_affine(po)'][i]
+            return (f'VolumeGeometry: after editing in place the array returned by {name}, {field} = {later[i]} instead of '
+                    f'{gfirst[i]}')
+    m0, a0, a1, x = o['ctor_matrix']
+    if a0 != m0 or a1 != m0:
+        return (f'VolumeGeometry(affine): the object reports {a1} after the caller edited its own matrix in place; it '
+                f'was built from {m0}')
+    if not _allclose(x, [[m0[i][0] + 2 * m0[i][1] + 3 * m0[i][2] + m0[i][3] for i in range(3)]], 1e3):
+        return f'VolumeGeometry(affine): index (1, 2, 3) maps to {x} after the caller edited its own matrix in place'
+    for name, (first, again) in o['functions'].items():
+        if first != again:
+            return f'{name}: a second call with the same arguments returns {again} after the first result {first} was edited in place'
+    return None
 
 
 def _oracle_ds_pair_dtype(c, out):
@@ -2697,11 +3352,15 @@ def shrink(c):
             if g['pos'] != ['0', '0', '0'] and c['kind'] not in ('p2p', 'i2i', 'coplanar', 'identities', 'r2p', 'r2i',
                                                                   'map_coord', 'malformed', 'for_image', 'ds_info',
                                                                   'ds_pair', 'ds_tile', 'p2p_dtype', 'ds_pair_dtype',
-                                                                  'identities_dtype'):
+                                                                  'identities_dtype', 'r2p_tie', 'map_coord_tie',
+                                                                  'p2p_tie', 'ds_pair_tie', 'routes', 'history',
+                                                                  'alias'):
                 yield dict(c, **{gk: dict(g, pos=['0', '0', '0'])})
             if g['sp'] != ['1', '1'] and c['kind'] not in ('r2p', 'r2i', 'map_coord', 'p2p', 'i2i', 'identities',
                                                             'malformed', 'for_image', 'ds_info', 'ds_pair', 'ds_tile',
-                                                            'p2p_dtype', 'ds_pair_dtype', 'identities_dtype'):
+                                                            'p2p_dtype', 'ds_pair_dtype', 'identities_dtype',
+                                                            'r2p_tie', 'map_coord_tie', 'p2p_tie', 'ds_pair_tie',
+                                                            'routes', 'history', 'alias'):
                 yield dict(c, **{gk: dict(g, sp=['1', '1'])})
     if 'shape' in c and c['shape'] and any(n > 1 for n in c['shape']) and c['kind'] != 'malformed' \
             and not c['kind'].startswith('vol_'):
@@ -2716,6 +3375,9 @@ def shrink(c):
             yield dict(c, alayout='C', adt='uint8')
     if c.get('layout', 'C') != 'C':
         yield dict(c, layout='C')
+    if c['kind'] == 'history' and len(c['ops']) > 1:
+        for i in range(len(c['ops'])):
+            yield dict(c, ops=c['ops'][:i] + c['ops'][i + 1:])
 
 
 if __name__ == '__main__':
